@@ -245,7 +245,7 @@ func coldStartBurst() {
 	}
 	// (nothing of the library is called before the first concurrent phase: the callers meet every first-use path together)
 	wordSrc := []string{"${V%%X*}", "${V#a?}", "${W##*/}", "${V%b*}", "${V%%Y*}", "${W#/?}", "~root/x", "~nobody", "~daemon/y", "*/*", "d?/f1*", "$((n+1))", "d[0-4]/f2?",
-		"$X", "$X $X", "${@#p}", "${@%x}", "\"${@##p?}\"", "${*%%?x}", "$-", "\"$-\" $#"}
+		"$X", "$X $X", "${@#p}", "${@%x}", "\"${@##p?}\"", "${*%%?x}", "$-", "\"$-\" $#", "$0$!"}
 	// one alias table shared (read-only, as far as the callers are concerned) by all callers; values with two trailing blanks
 	sharedEnv := &interp.ExecEnv{Aliases: map[string]string{"ll": "ls -l  ", "l2": "ll \t ", "b": "c  "}}
 	// ~name for every login name of the machine: each name is new to the process once, at a different moment for each caller
@@ -259,6 +259,17 @@ func coldStartBurst() {
 	const G = 8
 	one := func(g int) []string {
 		var out []string
+		// the special parameters, first thing in every caller: a value computed once per process on first use
+		// ($$, $0, ...) is computed by all callers together
+		env0 := interp.NewExecEnv("sim")
+		for _, n := range []string{"$", "0", "!", "?", "#", "-"} {
+			v, set := env0.Get(n)
+			if n == "$" {
+				// the value differs from process to process; results are compared across processes
+				v.Value = fmt.Sprint(v.Value == fmt.Sprint(os.Getpid()))
+			}
+			out = append(out, fmt.Sprint(n, v.Value, set))
+		}
 		var words []ast.Word
 		for _, w := range wordSrc {
 			if cmd, _, err := parser.ParseCommand("w", ": "+w); err == nil {
